@@ -318,12 +318,39 @@ fn flat<T: Fl>(
     }
 }
 
-pub const ENTRIES_1D: [&str; 4] = [
+pub const ENTRIES_1D: [&str; 7] = [
     "interp",
     "interp_array/Ix1",
     "interp_array/Ix2",
     "interp_array/IxDyn",
+    "interp_array/Ix3",
+    "interp_into/dirty-buffer",
+    "interp_array_into/Ix1/dirty-buffer",
 ];
+
+/// the queries padded (by repeating the last one) to a multiple of 4 and arranged as (2, m, 2)
+fn shape3<T: Fl>(qs: &[T]) -> ndarray::Array3<T> {
+    let mut v = qs.to_vec();
+    while v.len() % 4 != 0 || v.is_empty() {
+        v.push(*qs.last().expect("at least one query"));
+    }
+    let m = v.len() / 4;
+    ndarray::Array3::from_shape_vec((2, m, 2), v).expect("query shape")
+}
+
+/// first q rows of a padded result
+fn unpad<T: Fl>(a: ArrayD<T>, q: usize) -> ArrayD<T> {
+    let total = a.shape().iter().take(3).product::<usize>();
+    let l = if total == 0 { 0 } else { a.len() / total };
+    let v: Vec<T> = a.iter().cloned().take(q * l).collect();
+    ArrayD::from_shape_vec(Dyn(&[q, l]), v).expect("unpad")
+}
+
+/// what a caller's buffer holds before an `*_into` call: never zero, so that a write that adds to or
+/// skips elements shows
+fn dirt<T: Fl>() -> T {
+    T::from_f64_lossy(f64::NAN)
+}
 
 /// Evaluate all queries through one entry point of an interpolator over (n x L) data.
 /// The result is normalised to a (Q x L) matrix.
@@ -377,6 +404,38 @@ where
                 q,
             )
         }
+        "interp_array/Ix3" => {
+            if q == 0 {
+                return flat(Ok(Ok(ArrayD::from_elem(Dyn(&[0, 0]), T::zero()))), 0);
+            }
+            let qa = shape3(qs);
+            flat(
+                crate::driver::catch(|| ip.interp_array(&qa).map(|a| unpad(a.into_dyn(), q))),
+                q,
+            )
+        }
+        "interp_into/dirty-buffer" => {
+            let l = ip.index_point(0).1.len();
+            let r = crate::driver::catch(|| {
+                let mut rows: Vec<T> = vec![];
+                for &x in qs {
+                    let mut buf = Array1::from_elem(l, dirt::<T>());
+                    match ip.interp_into(x, buf.view_mut()) {
+                        Ok(()) => rows.extend(buf.iter().cloned()),
+                        Err(e) => return Err(e),
+                    }
+                }
+                Ok(ArrayD::from_shape_vec(Dyn(&[q, l]), rows).expect("rows"))
+            });
+            flat(r, q)
+        }
+        "interp_array_into/Ix1/dirty-buffer" => {
+            let l = ip.index_point(0).1.len();
+            let qa = Array1::from(qs.to_vec());
+            let mut buf = Array2::from_elem((q, l), dirt::<T>());
+            let r = crate::driver::catch(|| ip.interp_array_into(&qa, buf.view_mut()));
+            flat(r.map(|r| r.map(|_| buf.into_dyn())), q)
+        }
         _ => unreachable!("unknown entry {entry}"),
     }
 }
@@ -423,11 +482,14 @@ where
     }
 }
 
-pub const ENTRIES_2D: [&str; 4] = [
+pub const ENTRIES_2D: [&str; 7] = [
     "interp",
     "interp_array/Ix1",
     "interp_array/Ix2",
     "interp_array/IxDyn",
+    "interp_array/Ix3",
+    "interp_into/dirty-buffer",
+    "interp_array_into/Ix1/dirty-buffer",
 ];
 
 /// Evaluate all (qx, qy) pairs through one entry point of a 2-D interpolator over (nx x ny x L)
@@ -481,6 +543,38 @@ where
                 crate::driver::catch(|| ip.interp_array(&xa, &ya).map(|a| a.into_dyn())),
                 q,
             )
+        }
+        "interp_array/Ix3" => {
+            if q == 0 {
+                return flat(Ok(Ok(ArrayD::from_elem(Dyn(&[0, 0]), T::zero()))), 0);
+            }
+            let (xa, ya) = (shape3(qx), shape3(qy));
+            flat(
+                crate::driver::catch(|| ip.interp_array(&xa, &ya).map(|a| unpad(a.into_dyn(), q))),
+                q,
+            )
+        }
+        "interp_into/dirty-buffer" => {
+            let l = ip.index_point(0, 0).2.len();
+            let r = crate::driver::catch(|| {
+                let mut rows: Vec<T> = vec![];
+                for (&x, &y) in qx.iter().zip(qy) {
+                    let mut buf = Array1::from_elem(l, dirt::<T>());
+                    match ip.interp_into(x, y, buf.view_mut()) {
+                        Ok(()) => rows.extend(buf.iter().cloned()),
+                        Err(e) => return Err(e),
+                    }
+                }
+                Ok(ArrayD::from_shape_vec(Dyn(&[q, l]), rows).expect("rows"))
+            });
+            flat(r, q)
+        }
+        "interp_array_into/Ix1/dirty-buffer" => {
+            let l = ip.index_point(0, 0).2.len();
+            let (xa, ya) = (Array1::from(qx.to_vec()), Array1::from(qy.to_vec()));
+            let mut buf = Array2::from_elem((q, l), dirt::<T>());
+            let r = crate::driver::catch(|| ip.interp_array_into(&xa, &ya, buf.view_mut()));
+            flat(r.map(|r| r.map(|_| buf.into_dyn())), q)
         }
         _ => unreachable!("unknown entry {entry}"),
     }
